@@ -5,10 +5,13 @@ from .. import lexfam
 from . import pcommon as pc
 
 
+from .pcommon import is_lr1 as pc_is_lr1
+
+
 def run(tier):
     ck = C.Check("C16", tier)
     failed = ck.proofs()
-    n_g, n_r = (30, 8) if tier == "quick" else (800, 30)
+    n_g, n_r = (30, 8) if tier == "quick" else (400, 24)
     res = P.run_family(ck, n_g, n_r, p_err=0.4, want_hist=True)
     hists = bad = 0
     kinds = {"ok": 0, "synerr": 0, "acterr": 0, "recovered": 0}
@@ -24,6 +27,16 @@ def run(tier):
                 kinds["recovered"] += "(err " in part
             if len(set(map(tuple, h["hist"]))) > 1:
                 nontrivial.add((r["gi"], tuple(map(tuple, h["hist"])), tuple(h["fails"])))
+            if "hang" in h["fresh"].split(" || "):
+                # one input of the history does not return even on a fresh parser (a grammar whose conflicts -a resolved
+                # into a reduce loop; conflict-free grammars cannot: C02_parse_terminates / C07_parse_terminates).  The
+                # driver cannot continue a history past it, so the history is not comparable; the looping input is
+                # C04/C05's business
+                kinds["not_comparable_looping_input"] = kinds.get("not_comparable_looping_input", 0) + 1
+                if pc_is_lr1(r):
+                    ck.violation("Parse does not return on a conflict-free grammar: history %s: fresh `%s`" % (h["hist"], h["fresh"][:300]),
+                                 {"bnf": r["text"], "op": h["line"], "fresh": h["fresh"]})
+                continue
             if h["impl"] != h["fresh"]:
                 bad += 1
                 ck.violation("a reused parser object differs from fresh parsers: history %s fails %s: reused `%s` fresh `%s`" % (h["hist"], h["fails"], h["impl"], h["fresh"]),
@@ -32,7 +45,7 @@ def run(tier):
                 ck.violation("correspondence broken: history on one parser object vs Gocc.parse: `%s` vs `%s`" % (h["impl"], h["model"]),
                              {"bnf": r["text"], "op": h["line"], "impl": h["impl"], "model": h["model"], "unchecked": "correspondence Gocc.parse"}, found_input=False)
     # lexer half: scan k tokens, Reset, scan again
-    lres = lexfam.run_family(ck, 20 if tier == "quick" else 600, 20 if tier == "quick" else 100, with_reset=True)
+    lres = lexfam.run_family(ck, 20 if tier == "quick" else 400, 20 if tier == "quick" else 80, with_reset=True)
     resets = 0
     for r in lres:
         if r["rc"] != 0:
